@@ -29,7 +29,11 @@ def main():
         if driver.CURRENT is None or os.environ.get("PYVC_UPDATE_LEDGER") == "1":
             raise
         rc = driver.CURRENT.abort_missing(e.qualname)
-    except Exception:
+    except Exception as e:
+        from pyvc.core import Unsupported
+        if isinstance(e, Unsupported) and driver.CURRENT is not None and driver.LAST_FUNC and os.environ.get("PYVC_UPDATE_LEDGER") != "1":
+            traceback.print_exc()
+            sys.exit(driver.CURRENT.abort_unsupported(driver.LAST_FUNC, f"Unsupported: {e}"))
         traceback.print_exc()
         print(f"{a.prop}: checker crash (exit 3)")
         rc = 3
